@@ -46,6 +46,16 @@ Proof.
   - eapply NoDup_remove_2; exact Hnd.
 Qed.
 
+Lemma In_remove_nth (l : list nat) i x :
+  In x l -> x = nth i l 0 \/ In x (firstn i l ++ skipn (S i) l).
+Proof.
+  revert i. induction l as [|y l IH]; intros i H; [contradiction|].
+  destruct i as [|i]; cbn [nth firstn skipn app].
+  - destruct H as [->|H]; [now left|now right].
+  - destruct H as [->|H]; [right; now left|].
+    destruct (IH i H) as [->|Hin]; [now left|right; now right].
+Qed.
+
 Section Facts.
 Variable Loc : Type.
 Variable Glob : Type.
@@ -68,7 +78,10 @@ Record Inv (g : gst) (S : tid -> sst) (L E : tid -> list reg) : Prop := {
       regs (th g t) r = Some b -> regs (th g t') r' = Some b -> t = t' /\ r = r';
   inv_empty : forall t r, In r (E t) -> sbufs (S t) r = [];
   inv_pool : forall b, In b (pool g) -> heap g b = [] /\ b < next g;
-  inv_nodup : NoDup (pool g) }.
+  inv_nodup : NoDup (pool g);
+  (* accounting: every buffer ever created is pooled or held in a live register *)
+  inv_acct : forall b, b < next g ->
+      In b (pool g) \/ exists t r, In r (L t) /\ regs (th g t) r = Some b }.
 Arguments inv_disc {g S L E}.
 Arguments inv_pc {g S L E}.
 Arguments inv_loc {g S L E}.
@@ -78,6 +91,7 @@ Arguments inv_inj {g S L E}.
 Arguments inv_empty {g S L E}.
 Arguments inv_pool {g S L E}.
 Arguments inv_nodup {g S L E}.
+Arguments inv_acct {g S L E}.
 
 Ltac updc x y :=
   destruct (Nat.eq_dec x y) as [->|?];
@@ -97,6 +111,7 @@ Proof.
   - rewrite Hx. now apply (inv_empty I).
   - now apply (inv_pool I).
   - apply (inv_nodup I).
+  - now apply (inv_acct I).
 Qed.
 
 (* steps that touch only thread-private state (Local, GRead, If, Read) *)
@@ -118,6 +133,8 @@ Proof.
   - intros t0 r Hr. updc t0 t; proj; now apply (inv_empty I).
   - apply (inv_pool I).
   - apply (inv_nodup I).
+  - intros b Hb. destruct (inv_acct I b Hb) as [Hin|(t0 & r & Hr & Hreg)]; [now left|right].
+    exists t0, r. split; [exact Hr|]. updc t0 t; proj; exact Hreg.
 Qed.
 
 (* steps that overwrite the contents of a buffer the thread owns (Write, Reset) *)
@@ -162,6 +179,8 @@ Proof.
     assert (b1 <> b) by (intros ->; contradiction).
     now rewrite upd_other.
   - apply (inv_nodup I).
+  - intros b1 Hb1. destruct (inv_acct I b1 Hb1) as [Hin|(t0 & r0 & Hr0 & Hreg)]; [now left|right].
+    exists t0, r0. split; [exact Hr0|]. updc t0 t; proj; exact Hreg.
 Qed.
 
 (* Get: the thread receives a buffer [b] that is empty, pooled by nobody any more
@@ -172,12 +191,13 @@ Lemma get_inv g S L E t r k b heap' next' pool' :
   heap' b = [] -> b < next' -> next g <= next' -> ~ In b pool' -> NoDup pool' ->
   (forall b', In b' pool' -> In b' (pool g) /\ heap' b' = heap g b') ->
   (forall b', b' < next g -> ~ In b' (pool g) -> b' <> b /\ heap' b' = heap g b') ->
+  (forall b', b' < next' -> b' = b \/ In b' pool' \/ (b' < next g /\ ~ In b' (pool g))) ->
   Inv (mkgst heap' next' pool' (glob g)
              (upd (th g) t (mktst k (loc (th g t)) (upd (regs (th g t)) r (Some b)))))
       (upd S t (mksst k (sloc (S t)) (upd (sbufs (S t)) r []) (sglob (S t))))
       (upd L t (r :: L t)) (upd E t (r :: E t)).
 Proof.
-  intros I Hr Hd Hhb Hbn Hnn Hbp Hnd Hpool Hown.
+  intros I Hr Hd Hhb Hbn Hnn Hbp Hnd Hpool Hown Hacct.
   constructor; proj.
   - intros t0. updc t0 t; proj; [exact Hd|apply (inv_disc I)].
   - intros t0. updc t0 t; proj; [reflexivity|apply (inv_pc I)].
@@ -222,6 +242,14 @@ Proof.
   - intros b1 Hb1. destruct (Hpool b1 Hb1) as [Hin Hh]. destruct (inv_pool I b1 Hin) as [Hh1 Hlt1].
     split; [congruence|lia].
   - exact Hnd.
+  - intros b1 Hb1. destruct (Hacct b1 Hb1) as [->|[Hin|[Hlt Hnp]]].
+    + right. exists t, r. rewrite !upd_same. proj. rewrite upd_same. split; [now left|reflexivity].
+    + now left.
+    + destruct (inv_acct I b1 Hlt) as [Hin|(t0 & r0 & Hr0 & Hreg)]; [contradiction|right].
+      exists t0, r0. updc t0 t; proj.
+      * split; [now right|]. destruct (Nat.eq_dec r0 r) as [->|Hne]; [contradiction|].
+        now rewrite upd_other.
+      * split; assumption.
 Qed.
 
 (* Put of a live, known-empty register *)
@@ -261,6 +289,11 @@ Proof.
     + split; [|exact Hlt]. rewrite Hh. now apply (inv_empty I).
     + now apply (inv_pool I).
   - constructor; [exact Hnp|apply (inv_nodup I)].
+  - intros b1 Hb1. destruct (inv_acct I b1 Hb1) as [Hin|(t0 & r0 & Hr0 & Hreg)]; [left; now right|].
+    destruct (Nat.eq_dec b1 b) as [->|Hne]; [left; now left|right].
+    exists t0, r0. updc t0 t; proj.
+    + split; [|exact Hreg]. apply rm_In. split; [exact Hr0|]. intros ->. congruence.
+    + split; assumption.
 Qed.
 
 (* ------------------------------------------------------------ one global step *)
@@ -288,7 +321,10 @@ Proof.
       - intros Hin. apply (inv_pool I) in Hin. lia.
       - apply (inv_nodup I).
       - intros b' Hin. split; [exact Hin|]. apply (inv_pool I) in Hin as Hp. rewrite upd_other by lia. reflexivity.
-      - intros b' Hlt _. split; [lia|]. rewrite upd_other by lia. reflexivity. }
+      - intros b' Hlt _. split; [lia|]. rewrite upd_other by lia. reflexivity.
+      - intros b' Hlt. destruct (Nat.eq_dec b' (next g)) as [->|Hne]; [now left|].
+        destruct (in_dec Nat.eq_dec b' (pool g)) as [Hin|Hnin]; [right; now left|].
+        right. right. split; [lia|exact Hnin]. }
     destruct c as [i|]; [|exact Hfresh].
     destruct (i <? length (pool g)) eqn:Ei; [|exact Hfresh].
     apply Nat.ltb_lt in Ei.
@@ -299,6 +335,8 @@ Proof.
     + intros b' Hin. split; [|reflexivity].
       apply in_app_or in Hin as [Hin|Hin]; [exact (firstn_In_compat _ _ _ Hin)|exact (skipn_In_compat _ _ _ Hin)].
     + intros b' _ Hnp. split; [|reflexivity]. intros ->. contradiction.
+    + intros b' Hlt. destruct (in_dec Nat.eq_dec b' (pool g)) as [Hin'|Hnin']; [|right; right; now split].
+      destruct (In_remove_nth (pool g) i b' Hin') as [->|Hrest]; [now left|right; now left].
   - (* Write *)
     apply andb_prop in Hd as [Hl Hd]. apply inb_true in Hl.
     destruct (inv_own I t r Hl) as (b & Hb & Hlt & Hnp & Hh). rewrite Hb.
@@ -381,6 +419,7 @@ Proof.
   - apply HP.
   - split; [reflexivity|]. apply in_seq in H. lia.
   - apply seq_NoDup.
+  - left. apply in_seq. lia.
 Qed.
 
 (* The simulation: after ANY schedule, every thread is exactly where its solo run is
@@ -471,6 +510,21 @@ Proof.
   - now apply (inv_pool I').
   - now apply (inv_pool I').
   - exact HG.
+Qed.
+
+(* no leak: once every goroutine has finished, every buffer ever created is back in the
+   pool (each getBuffer was matched by its saveBuffer) *)
+Theorem pool_no_leak (P : tid -> prog) l0 G warm :
+  (forall t, disciplined (P t) = true) ->
+  forall sc, let g := run sc (ginit P l0 G warm) in
+    (forall t, pc (th g t) = PDone) -> forall b, b < next g -> In b (pool g).
+Proof.
+  intros HP sc.
+  destruct (run_inv sc _ _ _ _ (init_inv P l0 G warm HP)) as (S' & L' & E' & I' & _ & _).
+  cbn zeta. intros Hdone b Hb.
+  destruct (inv_acct I' b Hb) as [Hin|(t & r & Hr & _)]; [exact Hin|].
+  pose proof (inv_disc I' t) as Hd. rewrite Hdone in Hd. cbn [disc] in Hd.
+  destruct (L' t); [contradiction|discriminate].
 Qed.
 
 (* ------------------------------------------------------------- race freedom *)
